@@ -5,6 +5,7 @@ from pyvc.spec import Spec
 
 def build() -> Spec:
     spec = Spec()
+    spec.type_invariants = {}
     models.install(spec)
     from . import axioms_asyncio, axioms_pydantic, helpers_c, models_c, schema, service_c
     axioms_asyncio.install(spec)
